@@ -679,8 +679,10 @@ class ManifestRecursiveLoader:
                 for d in skip_dirs:
                     dirnames.remove(d)
                 # if we are planning to recur, record this dir
+                # (the top directory can be yielded with a trailing slash)
                 if dirnames:
-                    directory_ids[dirpath] = parent_dir_ids + [dir_id]
+                    directory_ids[dirpath.rstrip(os.sep) or os.sep] = (
+                        parent_dir_ids + [dir_id])
 
                 yield (dirpath, relpath, dirnames, filenames, dirdict)
 
@@ -1056,8 +1058,10 @@ class ManifestRecursiveLoader:
             for d in skip_dirs:
                 dirnames.remove(d)
             # if we are planning to recur, record this dir
+            # (the top directory can be yielded with a trailing slash)
             if dirnames:
-                directory_ids[dirpath] = parent_dir_ids + [dir_id]
+                directory_ids[dirpath.rstrip(os.sep) or os.sep] = (
+                    parent_dir_ids + [dir_id])
 
             # check for unregistered Manifest
             for mname in manifest_filenames:
@@ -1192,8 +1196,10 @@ class ManifestRecursiveLoader:
             for d in skip_dirs:
                 dirnames.remove(d)
             # if we are planning to recur, record this dir
+            # (the top directory can be yielded with a trailing slash)
             if dirnames:
-                directory_ids[dirpath] = parent_dir_ids + [dir_id]
+                directory_ids[dirpath.rstrip(os.sep) or os.sep] = (
+                    parent_dir_ids + [dir_id])
 
             new_entries = []
             for f in filenames:
